@@ -6,6 +6,7 @@ package main
 // gRPC over bufconn between nodes) and the condition waits that make a step "complete".
 
 import (
+	"io"
 	"context"
 	"errors"
 	"fmt"
@@ -47,6 +48,7 @@ type logWrap struct {
 	mu       sync.Mutex
 	appended int64
 	failNext int // fail the next k appends
+	failed   int64 // appends that failed, ever
 	events   []logEvent
 }
 
@@ -61,6 +63,7 @@ func (l *logWrap) Append(p *packet.Publish) error {
 	l.mu.Lock()
 	if l.failNext > 0 {
 		l.failNext--
+		l.failed++
 		l.events = append(l.events, logEvent{})
 		l.mu.Unlock()
 		return errors.New("injected append failure")
@@ -77,6 +80,7 @@ func (l *logWrap) Append(p *packet.Publish) error {
 		}
 		l.events = append(l.events, logEvent{true, string(p.Topic), string(p.Payload), q, r})
 	} else {
+		l.failed++
 		l.events = append(l.events, logEvent{})
 	}
 	l.mu.Unlock()
@@ -90,6 +94,7 @@ func (l *logWrap) takeEvents() []logEvent {
 	return ev
 }
 func (l *logWrap) appendedCount() int64 { l.mu.Lock(); defer l.mu.Unlock(); return l.appended }
+func (l *logWrap) failedCount() int64   { l.mu.Lock(); defer l.mu.Unlock(); return l.failed }
 
 type writerWrap struct {
 	wasp.Writer
@@ -102,10 +107,49 @@ func (w *writerWrap) Schedule(ctx context.Context, offset uint64) {
 }
 
 // queueWrap: the writer's wall-clock ticker calls Expire; only the harness sweeps (Force).
-type queueWrap struct{ ack.Queue }
+type queueWrap struct {
+	ack.Queue
+	queued *int64 // publishes handed to a worker (shared with ppWrap)
+	relJob int64  // of those, the ones a PUBREL released
+}
 
 func (q *queueWrap) Expire(now time.Time) {}
 func (q *queueWrap) Force(now time.Time)  { q.Queue.Expire(now) }
+
+// Insert: the callback of an inbound QoS 2 entry hands the stored publish to a worker when the
+// PUBREL arrives; that hand-off happens inside the callback, so it is counted when it returns.
+func (q *queueWrap) Insert(prefix string, pkt packet.Packet, deadline time.Time, cb ack.Callback) error {
+	if strings.HasSuffix(prefix, "/in") {
+		inner := cb
+		cb = func(expired bool, stored, received packet.Packet) {
+			inner(expired, stored, received)
+			if !expired {
+				atomic.AddInt64(q.queued, 1)
+				atomic.AddInt64(&q.relJob, 1)
+			}
+		}
+	}
+	return q.Queue.Insert(prefix, pkt, deadline, cb)
+}
+
+// ppWrap: the real packet processor; counts the publishes it hands to its workers (PUBLISH at QoS 0/1
+// and wills: Process returns once the job is in a worker's channel, not when a worker has started it).
+type ppWrap struct {
+	wasp.PacketProcessor
+	queued *int64
+}
+
+func (p *ppWrap) Process(ctx context.Context, session *sessions.Session, c io.Writer, pkt packet.Packet) error {
+	job := false
+	if pub, ok := pkt.(*packet.Publish); ok && pub.Header != nil {
+		job = c == nil || pub.Header.Qos == 0 || pub.Header.Qos == 1
+	}
+	err := p.PacketProcessor.Process(ctx, session, c, pkt)
+	if job && err == nil {
+		atomic.AddInt64(p.queued, 1)
+	}
+	return err
+}
 
 // localWrap: the real registry; a Get of a sentinel id signals that the writer reached it.
 type localWrap struct {
@@ -159,6 +203,7 @@ type e2eNode struct {
 	taps   *countingTaps
 	q      *queueWrap
 	mm     wasp.NodeMemberManager
+	queued int64 // publishes handed to the publish workers of this node
 	out    [][]byte // broadcasts drained so far
 	bseq   int
 }
@@ -172,6 +217,7 @@ type e2eCluster struct {
 	down     map[uint64]bool
 	mu       sync.Mutex
 	calls    []string // "src dst ok"
+	badCalls int64    // inter-node calls that failed, ever
 	sessN    int64
 	baseDist uint64
 	curClock int64
@@ -198,6 +244,9 @@ func (t *e2eTransport) Call(id uint64, f func(*grpc.ClientConn) error) error {
 		err = f(cc)
 	}
 	t.c.mu.Lock()
+	if err != nil {
+		t.c.badCalls++
+	}
 	t.c.calls = append(t.c.calls, fmt.Sprintf("%d %d %v", t.src, id, err == nil))
 	t.c.mu.Unlock()
 	return err
@@ -230,14 +279,14 @@ func newE2ECluster(ids []uint64) *e2eCluster {
 		n.local = &localWrap{LocalState: wasp.NewState(id), seen: map[string]bool{}}
 		n.dstate = distributed.NewState(id, n.bcast, audit.NoneRecorder())
 		dist := &wasp.PublishDistributor{ID: id, State: n.dstate.Subscriptions(), Storage: n.log, Logger: zap.NewNop(), Transport: c.transportFor(id)}
-		n.q = &queueWrap{Queue: ack.NewQueue()}
+		n.q = &queueWrap{Queue: ack.NewQueue(), queued: &n.queued}
 		w := wasp.NewWriter(id, n.dstate.Subscriptions(), n.local, n.q)
 		n.rawW = w
 		n.ww = &writerWrap{Writer: w}
 		n.taps = &countingTaps{}
 		go wasp.SchedulePublishes(id, n.ww, n.log)(ctx)
 		go w.Run(ctx, n.log)
-		pp := wasp.NewPacketProcessor(n.local, n.dstate, n.ww, n.taps, dist, n.q)
+		pp := &ppWrap{PacketProcessor: wasp.NewPacketProcessor(n.local, n.dstate, n.ww, n.taps, dist, n.q), queued: &n.queued}
 		go pp.Run(ctx)
 		n.mgr = wasp.NewConnectionManager(scriptAuth{&c.sessN}, n.local, n.dstate, n.ww, pp, n.q)
 		go n.mgr.Run(ctx)
@@ -292,13 +341,14 @@ func (c *e2eCluster) wait() time.Duration {
 func (c *e2eCluster) sync(faultHit bool) string {
 	deadline := time.Now().Add(c.wait())
 	for {
-		var started uint64
+		var started, queued uint64
 		ok := true
 		for _, n := range c.nodes {
 			started += uint64(atomic.LoadInt64(&n.taps.started))
+			queued += uint64(atomic.LoadInt64(&n.queued))
 		}
 		done := histCount(stats.PublishDistributionTime) - c.baseDist
-		if started != done {
+		if started != done || started < queued {
 			ok = false
 		}
 		for _, n := range c.nodes {
@@ -311,7 +361,7 @@ func (c *e2eCluster) sync(faultHit bool) string {
 		}
 		if time.Now().After(deadline) {
 			c.stalled = true
-			return fmt.Sprintf("sync timeout: started=%d distributed=%d", started, done)
+			return fmt.Sprintf("sync timeout: queued=%d started=%d distributed=%d", queued, started, done)
 		}
 		time.Sleep(200 * time.Microsecond)
 	}
@@ -334,3 +384,14 @@ func (c *e2eCluster) sync(faultHit bool) string {
 }
 
 var _ = transport.Metadata{}
+
+// storeFailures: failed appends and failed inter-node calls so far (an acknowledgement is withheld exactly when one happened)
+func (c *e2eCluster) storeFailures() int64 {
+	c.mu.Lock()
+	n := c.badCalls
+	c.mu.Unlock()
+	for _, nd := range c.nodes {
+		n += nd.log.failedCount()
+	}
+	return n
+}
